@@ -2929,7 +2929,7 @@ void SetN2kPGN59904(tN2kMsg &N2kMsg, uint8_t Destination, unsigned long Requeste
 }
 
 bool ParseN2kPGN59904(const tN2kMsg &N2kMsg, unsigned long &RequestedPGN) {
-  int result=((N2kMsg.DataLen>=3) && (N2kMsg.DataLen<=8));
+  int result=((N2kMsg.PGN==59904L) && (N2kMsg.DataLen>=3) && (N2kMsg.DataLen<=8));
   RequestedPGN=0;
   if (result) {
     int Index=0;
